@@ -289,6 +289,13 @@ func c07SteadyJobs(seed uint64, quick bool) []SweepJob {
 }
 
 // SweepScenario builds the scenario for one placement of a sweep job.
+func SweepScenario2(seed uint64, job SweepJob, jobIdx int, i, j int) *Scenario {
+	sc := SweepScenario(seed, job, jobIdx, i)
+	sc.Policy.SweepJ = j
+	sc.Note = "sweep2"
+	return sc
+}
+
 func SweepScenario(seed uint64, job SweepJob, jobIdx int, i int) *Scenario {
 	prop := job.Prop
 	if prop == "" {
